@@ -28,6 +28,15 @@ def gen_keys(tier, rng):
         hi = rng.choice([1, 2, 3, 9])
         K = [[rng.randint(0, hi) for _ in range(n)] for _ in range(D)]
         yield {"keys": K, "graded": rng.random() < 0.5, "reverse": rng.random() < 0.5}
+    # narrow / unsigned key dtypes with values near the top of their range (column sums exceed the dtype)
+    for _ in range(60 if tier != "thorough" else 600):
+        dt = rng.choice(["uint8", "uint16", "uint32", "int8", "int16", "int32"])   # (64-bit sums wrap in numpy itself: out of scope)
+        top = int(numpy.iinfo(dt).max)
+        D = rng.randint(2, 4)
+        n = rng.randint(2, 12)
+        pool = [0, 1, 2, top, top - 1, top // 2, top // 2 + 1, top // 3]
+        K = [[rng.choice(pool) for _ in range(n)] for _ in range(D)]
+        yield {"keys": K, "graded": rng.random() < 0.8, "reverse": rng.random() < 0.5, "dtype": dt}
     # 1-d keys
     for _ in range(20):
         n = rng.randint(0, 30)
@@ -38,7 +47,7 @@ def gen_keys(tier, rng):
        note="same clauses as the proved contract: permutation, sorted in (graded)(reverse) lex order, ties by index")
 def glexsort_post(inp):
     import numpoly
-    K = numpy.array(inp["keys"], dtype=int)
+    K = numpy.array(inp["keys"], dtype=inp.get("dtype", "int64"))
     K2 = numpy.atleast_2d(K)
     before = K.copy()
     rho = numpoly.glexsort(K, graded=inp["graded"], reverse=inp["reverse"])
@@ -48,7 +57,7 @@ def glexsort_post(inp):
     rho = [int(x) for x in numpy.asarray(rho).reshape(-1)]
     if sorted(rho) != list(range(n)):
         return f"not a permutation of 0..{n - 1}: {rho}"
-    keys = [col_key(K2[:, j], inp["graded"], inp["reverse"]) for j in rho]
+    keys = [col_key([int(v) for v in K2[:, j]], inp["graded"], inp["reverse"]) for j in rho]
     for p in range(n - 1):
         if keys[p] > keys[p + 1]:
             return f"not sorted at position {p}: {keys[p]} > {keys[p + 1]} (perm {rho})"
@@ -152,6 +161,17 @@ def gen_index(tier, rng):
                    "reverse": rng.random() < 0.5}
 
 
+def gen_index_pairs(tier, rng):
+    """two-valued cross_truncation (lower, upper) with dimensions >= 3 (the intermediate pruning of _glexindex only runs
+    from the third axis on)"""
+    pairs = [[1.0, 2.0], [0.5, 2.0], [1.0, "inf"], [0.5, 1.0], [2.0, 1.0], [1.0, 1.0]]
+    for D in (3,) if tier != "thorough" else (3, 4):
+        for stop in range(2, 6 if D == 3 else 5):
+            for start in range(0, stop):
+                for ct in pairs:
+                    yield {"start": start, "stop": stop, "D": D, "ct": ct, "graded": rng.random() < 0.5, "reverse": rng.random() < 0.5}
+
+
 def _ct(v):
     if v == "inf":
         return math.inf
@@ -177,6 +197,12 @@ def glexindex_exact(inp):
     if got_l != want:
         return f"got {got_l} expected {want}"
     return None
+
+
+@check("C18", "glexindex.exact_two_norms", gen_index_pairs, functions=("numpoly.glexindex", "numpoly.cross_truncate"),
+       note="bounded: dimensions 3 (4 thorough), start < stop <= 5, six (lower, upper) norm pairs; brute-force oracle")
+def glexindex_two_norms(inp):
+    return glexindex_exact(inp)
 
 
 def gen_bindex(tier, rng):
